@@ -381,10 +381,13 @@ class KMSRecorder:
     FAIL = None  # exception to raise from sign()
 
     def init_kms(self, context):
+        self.init_context = context
         KMSRecorder.LOG.append(("init", context))
 
     def sign(self, data, key_name, algorithm, context):
-        KMSRecorder.LOG.append(("sign", data, key_name, algorithm, context))
+        # the last element is the context this KMS *instance* was initialised with (a file-based KMS resolves its key
+        # directory at init time: a stale instance signs with the wrong key)
+        KMSRecorder.LOG.append(("sign", data, key_name, algorithm, context, getattr(self, "init_context", "<never initialised>")))
         if KMSRecorder.FAIL is not None:
             raise KMSRecorder.FAIL
         i = sum(1 for e in KMSRecorder.LOG if e[0] == "sign") - 1
